@@ -33,7 +33,7 @@ KERNELS = {
     "C39": ["k_find_file", "k_do_find_file", "k_fsloader_find"],
     "C06": ["k_unique_id", "k_random"],
     "C11": ["k_plus_minus_units", "k_numeric_cmp", "k_unitset_simplify"],
-    "C13": ["k_map_merge"],
+    "C13": ["k_map_merge", "k_map_find_value"],
     "C12": ["k_numeric_cmp", "k_value_eq_symmetric"],
     "C14": ["k_is_true", "k_and_or", "k_binop_short_circuit", "k_not"],
     "C16": ["k_set_variable", "k_loop_scopes"],
@@ -90,7 +90,7 @@ def _css_value(src):
     """Compile `a{b: <src>}` in both profiles -> (text or None, raw outcomes)."""
     outs = []
     for prof in ("dev", "release"):
-        r = native.run_scss("@use 'sass:math'; @use 'sass:color'; @use 'sass:string'; @use 'sass:list';\na{b: %s}" % src, prof)
+        r = native.run_scss("@use 'sass:math'; @use 'sass:color'; @use 'sass:string'; @use 'sass:list'; @use 'sass:map';\na{b: %s}" % src, prof)
         outs.append(r)
     vals = []
     for r in outs:
@@ -337,6 +337,9 @@ STRUCTURAL_PROBES = {
     "k_unitset_simplify": [("math.div(1, 1cm) * 1mm", "0.1"), ("math.div(1s, 1cm) * 1mm", "0.1s"), ("math.div(1, 1s) * 500ms", "0.5"),
                            ("math.div(144, 1in) * 36pt", "72"), ("math.div(1mm, 1cm)", "0.1"), ("1mm * math.div(1, 1cm)", "0.1"),
                            ("math.div(1cm * 1cm, 1mm)", "10cm"), ("math.div(1in, 1px) * 1px", "96px")],
+    "k_map_find_value": [("map-get((a: 1, b: 2), b)", "2"), ("inspect(map-get((a: 1, b: 2), c))", "null"), ("map-has-key((a: 1), a)", "true"), ("map-has-key((a: 1), b)", "false"),
+                         ("map.get((a: (b: (c: 3))), a, b, c)", "3"), ("inspect(map.get((a: (b: 2)), a, x))", "null"), ("inspect(map.get((a: 1), a, b))", "null"),
+                         ("map.has-key((a: (b: 2)), a, b)", "true"), ("map-get((1: x), 1.0)", "x"), ("map-get((1px: x, 1: y), 1)", "y")],
     "k_map_merge": [("inspect(map-merge((c: old), (c: new, e: f)))", "(c: new, e: f)"), ("inspect(map-merge((a: 1, b: 2), (b: 3)))", "(a: 1, b: 3)"),
                     ("inspect(map-merge((y: 0), (x: 1, y: 2, z: 3)))", "(y: 2, x: 1, z: 3)"), ("inspect(map-merge((), (a: 1)))", "(a: 1)")],
     "k_if_dispatch": [("@if () { a { b: 1 } } @else { a { b: 2 } }", "b: 1"), ("@if null { a { b: 1 } } @else { a { b: 2 } }", "b: 2"),
